@@ -157,7 +157,7 @@ Definition set_disk (st : store) (d : disk) (r : registry) : store :=
 
 (* a handle's snapshot *)
 Record sentry := mkEntry { e_slot : nat; e_path : ipath; e_ver : N; e_data : list bool }.
-Record snapshot := mkSnap { m_gen : N; m_iid : N; m_loaded : nat; s_init : bool; s_ents : list sentry }.
+Record snapshot := mkSnap { m_gen : N; m_slots : list nat; m_loaded : nat; s_init : bool; s_ents : list sentry }.
 
 Definition entry_of_slot (st : store) (i : nat) : option sentry :=
   match sfiles (get_slot st i) with
@@ -174,7 +174,7 @@ Fixpoint filter_map {A B} (f : A -> option B) (l : list A) : list B :=
   end.
 Definition collect_snapshot (st : store) : snapshot :=
   let ix := cur st in
-  mkSnap (igen ix) (iid ix) (iloaded ix) (iinit ix)
+  mkSnap (igen ix) (islots ix) (iloaded ix) (iinit ix)
          (if iinit ix then filter_map (entry_of_slot st) (islots ix) else []).
 
 (* --- load_next_index (sequentially nobody else is loading: the wait loop does not wait) --- *)
@@ -334,6 +334,11 @@ Fixpoint list_nat_eqb (a b : list nat) : bool :=
   | _, _ => false
   end.
 
+(* SlotMapIndex::state_id(): identity of the loose db list (changes at initialisation only: no alternates here), the
+   slot list and the number of load attempts *)
+Definition same_state_id (a b : sindex) : bool :=
+  Bool.eqb (iinit a) (iinit b) && list_nat_eqb (islots a) (islots b) && Nat.eqb (iloaded a) (iloaded b).
+
 Definition remove_slot (stable : bool) (generation : N) (st : store) (i : nat) : store :=
   let sl := get_slot st i in
   if stable then
@@ -375,7 +380,7 @@ Definition consolidate (st : store) (needs_init load_new_index : bool) : outcome
                       (fresh st1 + 1) (nstable st1) (ncons st1) (dsk st1) (reg st1)
             else st1 in
           let st3 := fold_left (remove_slot stable generation) to_remove st2 in
-          if (iid (cur st3) =? iid index) && Nat.eqb (iloaded (cur st3)) (iloaded index)
+          if same_state_id (cur st3) index
           then Ok (st3, CNone)
           else
             let st4 := if load_new_index then fst (load_next_index st3) else st3 in
@@ -386,12 +391,25 @@ Definition consolidate (st : store) (needs_init load_new_index : bool) : outcome
 Definition load_one_index (st : store) (refresh : bool) (m : snapshot) : outcome (store * cres) unit :=
   let index := cur st in
   if negb (iinit index) then consolidate st true false
-  else if negb (m_gen m =? igen index) || negb ((m_iid m =? iid index) && Nat.eqb (m_loaded m) (iloaded index))
+  else if negb (m_gen m =? igen index) ||
+          negb (Bool.eqb (s_init m) (iinit index) && list_nat_eqb (m_slots m) (islots index) &&
+                Nat.eqb (m_loaded m) (iloaded index))
   then Ok (st, CSome (collect_snapshot st))
   else
     let '(st1, changed) := load_next_index st in
     if changed then Ok (st1, CSome (collect_snapshot st1))
-    else if refresh then consolidate st1 false true else Ok (st1, CNone).
+    else
+      obind (if refresh then consolidate st1 false true else Ok (st1, CNone)) (fun '(st2, r) =>
+        match r with
+        | CNone =>
+            (* nothing new compared to the current index - which may still be newer than the caller's marker *)
+            let index := cur st2 in
+            if negb (m_gen m =? igen index) ||
+               negb (Bool.eqb (s_init m) (iinit index) && list_nat_eqb (m_slots m) (islots index) &&
+                     Nat.eqb (m_loaded m) (iloaded index))
+            then Ok (st2, CSome (collect_snapshot st2)) else Ok (st2, CNone)
+        | _ => Ok (st2, r)
+        end).
 
 (* --- load_pack (fixed code): Some (pack number) or None; the pack is the one of the slot's bundle --- *)
 Definition pack_on_disk (st : store) (p : N) : bool := memN p (d_packs (dsk st)).
@@ -451,7 +469,7 @@ Definition swap_front {A} (k : nat) (l : list A) : list A :=
                   end
   end.
 Definition set_ents (s : snapshot) (l : list sentry) : snapshot :=
-  mkSnap (m_gen s) (m_iid s) (m_loaded s) (s_init s) l.
+  mkSnap (m_gen s) (m_slots s) (m_loaded s) (s_init s) l.
 
 Inductive lres := Found (o : N) (src : bytes) | NotFound | LErr | WrongPack (want got : N).
 
